@@ -3,7 +3,7 @@
     Sem/GoVal.v, run on the very values the test binary marshalled, writes the same document and reads
     back the same value as encoding/json did. *)
 From Coq Require Import List String ZArith Bool Arith NArith.
-From GM Require Import Base.Result Facts.GoFacts Facts.Ana Model.Enums Model.Fields Model.Classify Model.SqlTypes Sem.GoJson Sem.GoVal.
+From GM Require Import Base.Result Facts.GoFacts Facts.Ana Model.Enums Model.Fields Model.Classify Model.SqlTypes Sem.GoJson Sem.GoVal Corr.AnaCross.
 Import ListNotations.
 Local Open Scope string_scope.
 
@@ -33,7 +33,8 @@ Definition val_ok (c : c2_case) (e : gty * value * json * value) : bool :=
 Definition env_ok (c : c2_case) : bool :=
   match c2_vals c with [] => true | _ => env_wf (env_of (c2_prog c) (ao_nodes (c2_ana c)) (c2_enums c)) end.
 
-Definition chk (c : c2_case) : bool := forallb (doc_ok c) (c2_docs c) && env_ok c && forallb (val_ok c) (c2_vals c).
+Definition chk (c : c2_case) : bool :=
+  ana_cross (c2_prog c) (c2_ana c) && forallb (doc_ok c) (c2_docs c) && env_ok c && forallb (val_ok c) (c2_vals c).
 
 Fixpoint mism_from (n : N) (cases : list c2_case) : list N :=
   match cases with [] => [] | c :: r => if chk c then mism_from (N.succ n) r else n :: mism_from (N.succ n) r end.
